@@ -165,217 +165,157 @@ def rule_R2(ck):
                 ck.violation(where, f"'{spelling}' computes {p.value!r} for b in {cell}, documented arithmetic is {want!r}", construct=f"operator {spelling} {kind} semantics", expected=repr(want), found=repr(p.value))
 
 
+def run_parser(I, name, text, **kwargs):
+    """Run a parser object of parser.py on a concrete text inside the interpreter. -> (result | None, end position, errors)"""
+    def thunk():
+        C = I.module_get("context", "Context")
+        ctx = I.instantiate(C, ["a.mac", text], {})
+        p = I.module_get("parser", name)
+        n0 = len([e for e in I.effects if e[0] == "report" and e[1] in ("error", "critical")])
+        try:
+            r = I.call(p, [ctx], dict(kwargs))
+            raised = None
+        except Raised as ex:
+            r, raised = None, ex.exc.name
+        errs = [e[2] for e in I.effects if e[0] == "report" and e[1] in ("error", "critical")][n0:]
+        return r, ctx.fields["pos"], errs, raised
+    ps = I.explore(thunk)
+    if len(ps) != 1 or ps[0].kind != "return":
+        raise Unknown(f"parser {name} on {text!r}: {ps}")
+    return ps[0].value
+
+
+def tree_shape(t):
+    if isinstance(t, Rec):
+        f = t.fields
+        if "lhs" in f and "rhs" in f:
+            return (t.cls.attrs.get("char"), tree_shape(f["lhs"]), tree_shape(f["rhs"]))
+        if "operand" in f:
+            return (t.cls.attrs.get("char"), tree_shape(f["operand"]))
+        if "name" in f:
+            return f["name"]
+        if "representation" in f:
+            return f["representation"]
+        if "expr" in f:
+            return ("()", tree_shape(f["expr"]))
+    return repr(t)
+
+
+def reference_tree(operands, ops, table):
+    """precedence climbing with the folded (precedence, associativity) table; smaller number binds tighter"""
+    out = [operands[0]]
+    stack = []
+
+    def reduce():
+        o = stack.pop()
+        r = out.pop()
+        l = out.pop()
+        out.append((o, l, r))
+    for o, x in zip(ops, operands[1:]):
+        p, assoc = table[o]
+        while stack and (table[stack[-1]][0] < p or (table[stack[-1]][0] == p and assoc == "left")):
+            reduce()
+        stack.append(o)
+        out.append(x)
+    while stack:
+        reduce()
+    return out[0]
+
+
 def rule_R3(ck):
-    """pop condition of the shunting loop, both sites"""
+    """expression(): the tree built for 'a o1 b o2 c' (every ordered pair of infix operators) and for four-operand chains is
+    the one precedence and associativity of the folded operator table imply"""
     repo = ck.repo
-    fn = repo.func("parser::expression")
-    mod = repo.module("parser")
-    sites = []
-    for n in walk_local(fn):
-        if isinstance(n, ast.While) and any(isinstance(c, ast.Call) and norm_text(c.func) == "pop_op_stack" for b in n.body for c in ast.walk(b)):
-            if not isinstance(n.test, ast.Constant) and not (isinstance(n.test, ast.Name) and n.test.id == "op_stack"):
-                sites.append(n)
+    I, reg = fold_registry(repo)
     I = eager_interp(repo)
-    for w in sites:
-        for p_in, q_top in ((1, 2), (2, 2), (3, 2)):
-            for left in (True, False):
-                env = Env()
-                opcls = ClassVal("Top")
-                opcls.attrs["precedence"] = q_top
-                opcls.attrs["associativity"] = "left"
-                env.vars.update(self_precedence=p_in, is_left_associative=left, op_stack=[{"operator": opcls}])
-                got = I.explore(lambda: I.truth(I.ev(w.test, env, mod)))
-                want = p_in > q_top or (p_in == q_top and left)
-                ck.instance(("pop", w.lineno, p_in - q_top, left), {"incoming-top precedence": p_in - q_top, "incoming left-assoc": left, "pops": got[0].value, "expected": want}, fn="parser::expression")
-                if len(got) != 1 or got[0].value != want:
-                    ck.violation(w, f"precedence loop pops={got[0].value} when incoming precedence {'>' if p_in > q_top else '==' if p_in == q_top else '<'} top and incoming is {'left' if left else 'right'}-associative; expected {want}",
-                                 construct="shunting pop condition " + norm_text(w.test))
-        # empty stack never pops
-        env = Env()
-        env.vars.update(self_precedence=5, is_left_associative=True, op_stack=[])
-        got = I.explore(lambda: I.truth(I.ev(w.test, env, mod)))
-        if got[0].value:
-            ck.violation(w, "precedence loop pops from an empty stack", construct="shunting empty")
-    if len(sites) < 2:
-        ck.unknown(f"expected two precedence-driven pop loops in expression(), found {len(sites)}")
-    # the final flush pops everything
-    flush = [n for n in walk_local(fn) if isinstance(n, ast.While) and isinstance(n.test, ast.Name) and n.test.id == "op_stack"]
-    ck.instance("flush", None, fn="parser::expression")
-    if not flush:
-        ck.violation("parser::expression", "operators left on the stack at the end of an expression are not applied", construct="final flush")
+    table = {}
+    for (char, kind), cls in reg.items():
+        if kind == "infix" and char != "$":
+            table[char] = (cls.attrs["precedence"], cls.attrs["associativity"])
+    ops = sorted(table)
+    where = "parser::expression"
+    n = 0
+    classes = {}
+    for o in ops:
+        classes.setdefault(table[o], []).append(o)
+    reps = [v[0] for k, v in sorted(classes.items())]
+    if ck.tier == "thorough":
+        pairs = [(o1, o2) for o1 in ops for o2 in ops]
+        rep = [o for o in ("*", "+", "<<", "&", "|", "-", "/") if o in table]
+    else:
+        # one representative per (precedence, associativity) class against every class, and every operator once on each side
+        pairs = sorted({(a, b) for a in reps for b in reps} | {(o, reps[i % len(reps)]) for i, o in enumerate(ops)} | {(reps[(i + 1) % len(reps)], o) for i, o in enumerate(ops)}
+                       | {(v[0], v[-1]) for v in classes.values()})
+        rep = [o for o in ("*", "+", "&") if o in table]
+    cases = [((o1, o2), ("a", "b", "c")) for o1, o2 in pairs]
+    cases += [((o1, o2, o3), ("a", "b", "c", "d")) for o1 in rep for o2 in rep for o3 in rep]
+    for opseq, names in cases:
+        text = names[0] + "".join(f" {o} {x}" for o, x in zip(opseq, names[1:]))
+        r, pos, errs, raised = run_parser(I, "expression", text)
+        n += 1
+        want = reference_tree(list(names), list(opseq), table)
+        got = tree_shape(r) if r is not None else None
+        if len(opseq) == 2 and (opseq[0] in "*+" and opseq[1] in "*+-"):
+            ck.instance(("tree", text), {"text": text, "tree": repr(got)}, fn=where)
+        else:
+            ck.instance(("tree", text), None, fn=where)
+        if raised or errs or got != want or pos != len(text):
+            ck.violation(where, f"'{text}' is parsed as {got!r} (errors {errs}, {raised}); precedence and associativity of the operator table require {want!r}", construct="expression tree for operator pair/chain",
+                         expected=repr(want), found=repr(got))
+            break
+    if n < 60:
+        ck.unknown(f"only {n} operator sequences parsed")
+    # unary minus binds tighter than any infix operator; brackets group
+    for text, want in (("-a * b", ("*", ("-", "a"), "b")), ("a - -1", ("-", "a", "-1")), ("~a & b", ("&", ("~", "a"), "b")), ("(a + b) * c", ("*", ("()", ("+", "a", "b")), "c")),
+                       ("<a + b> * c", ("*", ("()", ("+", "a", "b")), "c")), ("a * ^/b + c/", ("*", "a", ("()", ("+", "b", "c"))))):
+        r, pos, errs, raised = run_parser(I, "expression", text)
+        got = tree_shape(r) if r is not None else None
+        ck.instance(("tree", text), {"text": text, "tree": repr(got)}, fn=where)
+        if got != want or errs or raised:
+            ck.violation(where, f"'{text}' is parsed as {got!r} (errors {errs}, {raised}), expected {want!r}", construct="expression tree for unary/brackets", expected=repr(want), found=repr(got))
 
 
-# ------------------------------------------------------------------------------------------ number()
-def parser_kind(rec):
-    fn = rec.fields.get("fn")
-    if not isinstance(fn, Closure):
-        return ("?",)
-    env = fn.env
-    if "literal" in env.vars and "case_sensitive" in env.vars and "regex" not in env.vars:
-        return ("literal", env.vars["literal"])
-    if "regex" in env.vars and isinstance(env.vars["regex"], re.Pattern):
-        return ("regex", env.vars["regex"].pattern, env.vars["regex"].flags)
-    if "rhs" in env.vars and "self" in env.vars:
-        return ("combo",)
-    if "self" in env.vars:
-        return ("invert",)
-    return ("fn", fn.name)
+LITERALS = [
+    # text, value, is_valid_label, flagged-as-8/9 (error reported or invalid_base8), None value = 'not a number' (label)
+    ("0", 0, True, False), ("17", 0o17, True, False), ("777", 0o777, True, False), ("-17", -0o17, False, False), ("17.", 17, False, False), ("-17.", -17, False, False),
+    ("19.", 19, False, False), ("9.", 9, False, False), ("18", 18, True, True), ("9", 9, True, True), ("-18", -18, False, True), ("0x1F", 31, True, False), ("0X1f", 31, True, False),
+    ("-0x10", -16, False, False), ("0o17", 15, True, False), ("0b101", 5, True, False), ("^X1f", 31, False, False), ("^xFF", 255, False, False), ("^O17", 15, False, False),
+    ("^B101", 5, False, False), ("^D19", 19, False, False), ("-^D10", -10, False, False), ("-^O12", -10, False, False), ("-^XA", -10, False, False), ("-^B1010", -10, False, False),
+    ("1$", None, None, None), ("1a", None, None, None), ("1_2", None, None, None), ("0xZZ", None, None, None), ("0q7", None, None, None), ("17:", None, None, None), ("1.5", None, None, None),
+]
 
 
 def rule_R4(ck):
+    """number(): class representatives of every literal spelling, run through the real combinators inside the interpreter"""
     repo = ck.repo
     where = "parser::number"
-    NUM = sym.var("num", "str")
     I = eager_interp(repo)
-    log = []
-
-    def parser_call(I_, fn, args, kwargs):
-        self = args[0]
-        kind = parser_kind(self)
-        maybe = kwargs.get("maybe", False)
-        report = kwargs.get("report")
-        if kind[0] == "literal":
-            if I_.choose(("match-literal", kind[1], len([l for l in log if l == kind]))):
-                log.append(kind)
-                return kind[1]
-            if maybe:
-                return None
-            raise Raised(ExcVal("RecoverableError", cls=I_.module_get("reports", "RecoverableError")))
-        if kind[0] == "regex":
-            log.append(kind)
-            return NUM
-        if kind[0] in ("combo", "invert"):
-            if I_.choose(("match-colon",)):
-                return ":"
-            if maybe:
-                return None
-            raise Raised(ExcVal("RecoverableError", cls=I_.module_get("reports", "RecoverableError")))
-        raise Unsupported(f"number(): unexpected sub-parser {kind}")
-    I.summaries["parser::Parser.__call__"] = parser_call
-    CTX = sym.var("ctx", "obj")
-    rec = I.explore(lambda: I.module_get("parser", "number"))[0].value
-    inner = rec.fields["fn"]
-
-    def thunk():
-        del log[:]
-        r = I.call(inner, [CTX], {})
-        return r, list(log)
-    paths = I.explore(thunk)
-    seen = set()
-    radix_regex = {}
-    for p in paths:
-        dec = dict()
-        for k, v in p.decisions:
-            dec[k] = v
-        lits = [k[1] for k, v in p.decisions if k[0] == "match-literal" and v]
-        negative = "-" in lits
-        prefix = [l for l in lits if l.startswith("^")]
-        sign = -1 if negative else 1
-        if p.kind == "raise":
+    for text, value, label, flagged in LITERALS:
+        r, pos, errs, raised = run_parser(I, "number", text + " ")
+        got = None if r is None else (r.fields.get("value"), r.fields.get("is_valid_label"), bool(r.fields.get("invalid_base8")) or bool(errs))
+        ck.instance(("literal", text), {"literal": text, "result": repr(got) if r is not None else f"not a number ({raised})"}, fn=where)
+        if value is None:
+            if r is not None:
+                ck.violation(where, f"'{text}' is read as the number {got[0]!r}; by the documented spellings it is not a number (a local label or malformed)", construct=f"literal class of {text}")
             continue
-        val, lg = p.value
-        if not isinstance(val, Rec) or val.cls.name != "Number":
-            ck.violation(where, f"number() returns {val!r}", construct="number result")
+        if r is None:
+            ck.violation(where, f"'{text}' is not read as a number ({raised}); expected the value {value}", construct=f"literal {text} rejected", expected=value, found=raised)
             continue
-        value = val.fields["value"]
-        errs = [e[2] for e in p.reported()]
-        if prefix:
-            base = {"^x": 16, "^o": 8, "^b": 2, "^d": 10}.get(prefix[0])
-            rx = [l for l in lg if l[0] == "regex"]
-            want = sym.mul(sym.op("int", NUM, base), sign) if base else None
-            key = ("caret", prefix[0], negative)
-            if key not in seen:
-                seen.add(key)
-                ck.instance(key, {"spelling": f"{'-' if negative else ''}{prefix[0].upper()}<digits>", "value": repr(value)}, fn=where)
-            if base is None or value != want:
-                ck.violation(where, f"literal {prefix[0].upper()}<digits> evaluates to {value!r}, expected {want!r}", construct=f"radix prefix {prefix[0]}", expected=repr(want), found=repr(value))
-            if rx:
-                radix_regex[prefix[0]] = (rx[-1][1], rx[-1][2], base)
-            if val.fields.get("is_valid_label"):
-                ck.violation(where, f"{prefix[0]} literal can be taken for a local label", construct=f"radix prefix {prefix[0]} label")
-            continue
-        # classify by the decisions on the digit string
-        conds = [(k[1], v) for k, v in p.decisions if k[0] in ("truth", "isdigit")]
-        txt = " & ".join(("" if v else "not ") + repr(k) for k, v in conds)
-        has_dot = any(v and is_sym(k) and "'.'" in repr(k) and "==" in repr(k) and "-1" in repr(k) for k, v in conds)
-        isdigit = any(v and (k[0] == "isdigit" or (k[0] == "regexmatch" and k[1] == "re.fullmatch" and k[2] in (r"[0-9]+", r"\d+", r"[0-9]+\Z"))) for k, v in p.decisions)
-        has89 = any(v and is_sym(k) and k[:2] == ("op", "in") and k[2] in ("8", "9") for k, v in conds)
-        body = sym.op("slice", NUM, None, -1, None) if has_dot else NUM
-        if isdigit:
-            if has_dot:
-                want, kindname = sym.mul(sym.op("int", body, 10), sign), "decimal (trailing dot)"
-            elif has89:
-                want, kindname = sym.mul(sym.op("int", body, 10), sign), "bare digits with 8/9"
-            else:
-                want, kindname = sym.mul(sym.op("int", body, 8), sign), "bare octal"
-            key = (kindname, negative)
-            if key not in seen:
-                seen.add(key)
-                ck.instance(key, {"spelling": kindname, "negative": negative, "value": repr(value), "invalid_base8": val.fields.get("invalid_base8"), "errors": errs}, fn=where)
-            if value != want:
-                ck.violation(where, f"{kindname} literal evaluates to {value!r}, expected {want!r}", construct=f"number {kindname}", expected=repr(want), found=repr(value))
-            if kindname == "bare digits with 8/9" and not (errs or val.fields.get("invalid_base8") is True):
-                ck.violation(where, "a bare digit string containing 8 or 9 is accepted silently (neither reported nor flagged invalid_base8)", construct="number 8/9 flag", rule="C05.R5")
-            if kindname != "bare digits with 8/9" and (errs or val.fields.get("invalid_base8")):
-                ck.violation(where, f"{kindname} literal is flagged/reported as invalid", construct=f"number {kindname} spurious")
-        else:
-            # C-style 0x / 0o / 0b
-            if not (is_sym(value) or isinstance(value, int)):
-                ck.violation(where, f"number() value {value!r}", construct="number c-style")
-                continue
-            want_prefix = sym.op("int", sym.op("slice", body, 2, None, None), None)
-            ok = False
-            v = value
-            if is_sym(v) and v[0] == "lin":
-                (term, coeff), = v[1] if len(v[1]) == 1 else ((None, None),)
-                v = term if coeff == sign and value[2] == 0 else None
-            elif sign == 1:
-                v = value
-            if is_sym(v) and v[:2] == ("op", "int") and v[2] == sym.op("slice", body, 2, None, None):
-                b = v[3]
-                if is_sym(b) and b[:2] == ("op", "item") and is_sym(b[2]) and b[2][:2] == ("op", "const"):
-                    table = I.consts.get(b[2][2])
-                    keyexpr = b[3]
-                    if keyexpr == sym.op("lower", sym.op("item", body, 1)):
-                        ok = True
-                        key = ("c-style", negative)
-                        if key not in seen:
-                            seen.add(key)
-                            ck.instance(key, {"spelling": "0x/0o/0b", "BASES": table, "value": repr(value)}, fn=where)
-                        if table != {"x": 16, "o": 8, "b": 2}:
-                            ck.violation(where, f"C-style radix letters map to {table}, expected x:16 o:8 b:2", construct="BASES", expected={"x": 16, "o": 8, "b": 2}, found=table)
-            if not ok:
-                ck.violation(where, f"C-style literal evaluates to {value!r}, expected int(num[2:], BASES[num[1].lower()]) * sign", construct="number c-style value")
-    need = {("caret", "^x", False), ("caret", "^o", False), ("caret", "^b", False), ("caret", "^d", False), ("decimal (trailing dot)", False),
-            ("bare octal", False), ("bare octal", True), ("bare digits with 8/9", False), ("c-style", False)}
-    for k in sorted(need - seen, key=str):
-        ck.violation(where, f"no path of number() produces a {k[0]} {k[1] if isinstance(k[1], str) else ''} literal any more", construct=f"number kind {k[0]} {k[1]}")
-    # digit classes of the caret forms
-    import re._parser as rp
-    for pfx, (pattern, flags, base) in sorted(radix_regex.items()):
-        parsed = rp.parse(pattern, flags)
-        first = parsed[0]
-        allowed = set("0123456789abcdefghijklmnopqrstuvwxyz"[:base]) if base else set()
-        chars = set()
-        unicode_digits = False
-        if str(first[0]) == "MAX_REPEAT":
-            inner = first[1][2]
-            items = inner[0][1] if str(inner[0][0]) == "IN" else [inner[0]]
-            for kind, val in items:
-                if str(kind) == "LITERAL":
-                    chars.add(chr(val).lower())
-                elif str(kind) == "RANGE":
-                    chars.update(chr(c).lower() for c in range(val[0], val[1] + 1))
-                elif str(kind) == "CATEGORY" and "DIGIT" in str(val):
-                    unicode_digits = True
-                    chars.update("0123456789")
-                else:
-                    raise Unknown(f"digit class of {pfx}: {kind} {val}")
-        else:
-            raise Unknown(f"digit regex of {pfx} is not a repetition: {pattern}")
-        ck.instance(("digits", pfx), {"prefix": pfx, "regex": pattern, "base": base}, fn=where)
-        if chars != allowed:
-            ck.violation(where, f"digits accepted after {pfx.upper()} are {''.join(sorted(chars))}, radix {base} has {''.join(sorted(allowed))}", construct=f"radix digits {pfx}")
+        if got[0] != value:
+            ck.violation(where, f"'{text}' evaluates to {got[0]!r}, the radix its spelling states gives {value}", construct=f"literal value ({'caret' if '^' in text else 'c-style' if text.lstrip('-')[:2].lower() in ('0x', '0o', '0b') else 'decimal' if text.endswith('.') else 'bare'}{' negative' if text.startswith('-') else ''})",
+                         expected=value, found=got[0])
+        if got[2] != flagged:
+            ck.violation(where, f"'{text}': {'a bare digit string with 8 or 9 is accepted silently (neither reported nor flagged)' if flagged else 'a valid literal is flagged/reported as invalid'}", construct="number 8/9 flag" if flagged else "number spurious flag", rule="C05.R5")
+        if label is not None and got[1] != label and not flagged:
+            ck.violation(where, f"'{text}': is_valid_label is {got[1]}, expected {label} (only a bare non-negative number can also name a local label)", construct="number is_valid_label")
+        if pos != len(text):
+            ck.violation(where, f"'{text}' is consumed up to position {pos}, not to its end", construct="number extent")
+    # digit classes of the caret forms: a digit outside the radix is not part of the number
+    for text in ("^O18", "^B102", "^XFG"):
+        r, pos, errs, raised = run_parser(I, "number", text + " ")
+        ck.instance(("literal", text), None, fn=where)
+        if r is not None and not errs:
+            ck.violation(where, f"'{text}' (a digit outside the radix) is accepted as {r.fields.get('value')!r}", construct="radix digit class")
 
 
 def rule_R5(ck):
@@ -411,7 +351,7 @@ def rule_R7(ck):
         sh = Shapes(I)
         c = sh.mk(I.module_get("types", "CharLiteral"), None, None, "'x", STR)
         return I.call_method(c, "resolve", [STATE])
-    want = sym.op("item", sym.op("unpack", "<H", sym.op("ljustb", sym.op("slice", enc, None, 2, None), 2, b"\x00")), 0)
+    want = sym.op("from_bytes", sym.op("slice", enc, None, 2, None), "little")
     for p in I.explore(thunk):
         cell = p.cells[LEN]
         errs = [e[2] for e in p.reported()]
@@ -444,8 +384,8 @@ def rule_R9(ck):
 def run(ck):
     ck.run_rule("C05.R1", "operator table: spelling, kind, precedence order, associativity", 22, rule_R1)
     ck.run_rule("C05.R2", "operator semantics per guard cell; division by zero and negative shifts are errors", 28, rule_R2)
-    ck.run_rule("C05.R3", "precedence loop pop condition over the complete order type", 13, rule_R3)
-    ck.run_rule("C05.R4", "number(): radix of every literal spelling; digit classes", 10, rule_R4)
+    ck.run_rule("C05.R3", "trees built for every ordered pair of infix operators and for chains follow the precedence table", 60, rule_R3)
+    ck.run_rule("C05.R4", "number(): value, label-ness and 8/9 flag for representatives of every literal spelling", 30, rule_R4)
     ck.run_rule("C05.R5", "Number.resolve reports bare digits with 8/9", 2, rule_R5)
     ck.run_rule("C05.R7", "character literal packing", 2, rule_R7)
     ck.run_rule("C05.R9", "bracket transparency", 3, rule_R9)
